@@ -627,14 +627,12 @@ func checkDropTable(c rc) {
 		return
 	}
 	c.r.Floor("BD2", 200)
-	reported := map[string]bool{}
-	for L := int64(0); L <= 8; L++ {
-		for k := int64(-11); k <= 11; k++ {
-			out, ok, why := miniEval(fn, map[*ssa.Parameter]mv{n: {k: mvInt, n: k}}, miniEnv{p: p, slice: sl, length: L})
-			if !ok {
-				c.und("BD2", name, "window table", c.fpos(fn), "Drop cannot be followed by the table's evaluator ("+why+")")
-				return
-			}
+	runAffTable(c, affTable{rule: "BD2", name: name, fn: fn, slice: sl, ints: []*ssa.Parameter{n}, baseL: 8, baseW: 11, capL: 24, capW: 40,
+		// the statement's regions: n > 0, n < 0, |n| <= len
+		stmtPlanes: [][4]int64{{0, 1, 0, 0}, {-1, 1, 0, 0}, {1, 1, 0, 0}},
+		call:       func(L int64, a []int64) string { return fmt.Sprintf("Drop(slice of length %d, %d)", L, a[0]) },
+		judge: func(L int64, a []int64, out miniOut, _ []int64) (bool, string, string) {
+			k := a[0]
 			wantLo, wantHi := int64(0), L
 			switch {
 			case k > 0:
@@ -672,31 +670,24 @@ func checkDropTable(c rc) {
 					reason = fmt.Sprintf("returns slice[%d:%d], the definition wants slice[%d:%d]", gotLo, gotHi, wantLo, wantHi)
 				}
 			}
-			c.r.Obligation("BD2", okV, map[string]any{"rule": "BD2", "function": name, "len": L, "n": k, "ok": okV})
-			if !okV {
-				region := "n > len"
-				switch {
-				case k == 0:
-					region = "n = 0"
-				case k > 0 && k < L:
-					region = "0 < n < len"
-				case k == L:
-					region = "n = len"
-				case k < 0 && -k < L:
-					region = "-len < n < 0"
-				case k == -L:
-					region = "n = -len"
-				case k < -L:
-					region = "n < -len"
-				}
-				if L == 0 {
-					region = "empty slice, " + region
-				}
-				if !reported[region] {
-					reported[region] = true
-					c.r.Violation(coreDiag("BD2", name, region, c.fpos(fn), fmt.Sprintf("Drop(slice of length %d, %d) %s", L, k, reason)))
-				}
+			region := "n > len"
+			switch {
+			case k == 0:
+				region = "n = 0"
+			case k > 0 && k < L:
+				region = "0 < n < len"
+			case k == L:
+				region = "n = len"
+			case k < 0 && -k < L:
+				region = "-len < n < 0"
+			case k == -L:
+				region = "n = -len"
+			case k < -L:
+				region = "n < -len"
 			}
-		}
-	}
+			if L == 0 {
+				region = "empty slice, " + region
+			}
+			return okV, reason, region
+		}})
 }
